@@ -572,7 +572,9 @@ class SecopClient(ProxyClient):
         self.disconnect_time = time.time()
         try:  # make sure txq does not block
             while not self.txq.empty():
-                self.txq.get(False)
+                entry = self.txq.get(False)
+                if entry:
+                    entry[1].set()  # release the waiting caller (connection closed)
         except Exception:
             pass
         # read each attribute once: a worker thread ending at the same time
@@ -677,6 +679,9 @@ class SecopClient(ProxyClient):
         # the last item is for the reply
         entry = [request, Event(), None]
         self.txq.put(entry, timeout=3)
+        if not self._running:
+            # the connection was shut down meanwhile: nobody will look at txq anymore
+            entry[1].set()
         return entry
 
     def get_reply(self, entry):
